@@ -298,27 +298,66 @@ func c11Restart(c *core.Ctx) {
 			if gd.Type.Params != nil && len(gd.Type.Params.List) == 1 && len(gd.Type.Params.List[0].Names) == 1 {
 				pv, _ = g.Info.Defs[gd.Type.Params.List[0].Names[0]].(*types.Var)
 			}
-			if pv == nil || !types.Identical(pv.Type(), specT) {
-				op.undecided = "the normaliser " + gd.Name.Name + " does not take the Spec by value: cannot tell whether it works on a private copy"
+			byValue := pv != nil && types.Identical(pv.Type(), specT)
+			byPointer := pv != nil && types.Identical(pv.Type(), types.NewPointer(specT))
+			if !byValue && !byPointer {
+				op.undecided = "the normaliser " + gd.Name.Name + " does not take one Spec (by value or by pointer): cannot tell whether it works on a private copy"
 				return op
 			}
-			// every return yields the parameter itself
+			// the variable holding the copy inside the normaliser: the by-value parameter itself, or
+			// a local assigned once from the dereferenced pointer parameter (`x := *spec`)
+			cv := pv
+			if byPointer {
+				cv = nil
+				n := 0
+				ast.Inspect(gd.Body, func(nd ast.Node) bool {
+					as, ok := nd.(*ast.AssignStmt)
+					if !ok || len(as.Lhs) != len(as.Rhs) {
+						return true
+					}
+					for i, l := range as.Lhs {
+						st, ok := ast.Unparen(as.Rhs[i]).(*ast.StarExpr)
+						if !ok {
+							continue
+						}
+						if id, ok := ast.Unparen(st.X).(*ast.Ident); ok && g.Info.Uses[id] == pv {
+							if lid, ok := l.(*ast.Ident); ok {
+								if v, ok := g.Info.Defs[lid].(*types.Var); ok {
+									cv = v
+									n++
+								}
+							}
+						}
+					}
+					return true
+				})
+				if n != 1 || cv == nil {
+					op.undecided = "the normaliser " + gd.Name.Name + " takes a *Spec but does not make exactly one private copy of it (x := *spec)"
+					return op
+				}
+				// nothing may be written through the pointer itself: that is the live spec
+				if live, _ := c11BlankedIn(g, gd.Body, pv, nil); len(live) > 0 {
+					op.violation = "the normaliser " + gd.Name.Name + " assigns fields through its *Spec parameter: it blanks the live spec that the running router generation reads, not a copy"
+					return op
+				}
+			}
+			// every return yields the copy
 			okRet := true
 			ast.Inspect(gd.Body, func(n ast.Node) bool {
 				if r, ok := n.(*ast.ReturnStmt); ok {
 					if len(r.Results) != 1 {
 						okRet = false
-					} else if id, ok := ast.Unparen(r.Results[0]).(*ast.Ident); !ok || g.Info.Uses[id] != pv {
+					} else if id, ok := ast.Unparen(r.Results[0]).(*ast.Ident); !ok || g.Info.Uses[id] != cv {
 						okRet = false
 					}
 				}
 				return true
 			})
 			if !okRet {
-				op.undecided = "the normaliser " + gd.Name.Name + " does not simply return its (blanked) parameter"
+				op.undecided = "the normaliser " + gd.Name.Name + " does not simply return its (blanked) copy"
 				return op
 			}
-			nb, dup := c11BlankedIn(g, gd.Body, pv, nil)
+			nb, dup := c11BlankedIn(g, gd.Body, cv, nil)
 			for k, v := range nb {
 				if _, has := op.blank[k]; !has {
 					op.blank[k] = v
